@@ -1,6 +1,7 @@
 //! mc-core: bounded exhaustive exploration engines that need only the library crates of cgt-tool.
 //! Usage: mc-core <PROPERTY> <quick|thorough>      |     mc-core <PROPERTY> --replay <file>
 mod conserve;
+mod conv;
 mod ledger;
 mod lex;
 mod cli;
@@ -48,6 +49,8 @@ fn main() {
         "C13" => lex::c13(tier),
         "C14" => roundtrip::c14(tier),
         "C15" => robust::c15(tier),
+        "C18" => conv::c18(tier),
+        "C19" => conv::c19(tier),
         other => machinery_failure(&format!("mc-core has no engine for {other}")),
     };
     std::process::exit(code);
